@@ -59,6 +59,7 @@ func C13(c *Ctx) {
 	r.Rule("C13-e", "pair invariant of CharClassMatcher.Ranges (low/high pairs): every store to a Ranges field keeps the length even — nil, a copy or concatenation of pair slices, a two-element append, or a local slice built only by two-element appends; the only single-element appends are the start/end pair of the range state machine in CharClassMatcher.parse. The stride-2 loops that read Ranges[i+1] (optimizer, builder, runtime) rely on it")
 	r.Rule("C13-f", "every non-constant index into a fixed-size array in the generator is provably in range: the index is a variable bounded by an enclosing `< len` condition (if or loop), or unicode.ToUpper/ToLower of such a variable when the bound is 128 (case mapping of an ASCII rune stays ASCII; unicode.SimpleFold does not)")
 	r.Rule("C13-g", "counter loops of the generator are well-formed: a loop whose condition is `i < len(X)` (or `i < K`, `j < K && …`) starts from a value not above the bound's domain and steps upwards (i++, i += k); a loop with condition `i >= 0` steps downwards; so each terminates and indexes X[i] (and X[i+1] for stride 2 over a pair list) in range")
+	r.Rule("C13-h", "inlining by -optimize-grammar terminates: a rule reference is replaced by a clone of the rule only if the rule is defined and has no entry in ruleUsesRules, and that map records every reference of every rule (self references included) unconditionally - so the clone contains no reference and cannot be inlined again")
 	r.Rule("C13-c", "main passes Recover(!*noRecoverFlag) to ParseReader")
 
 	g := c.G()
@@ -107,6 +108,8 @@ func C13(c *Ctx) {
 	c13RangePairs(c, g)
 	c13ArrayBounds(c, g)
 	c13CounterLoops(c, g)
+	optimizerInlining(c, g, "C13-h")
+	c13IO(c, g)
 	c13Exit(c, g)
 	if c.Thorough() {
 		c13CrossRef(c, g)
@@ -1167,4 +1170,28 @@ func c13CounterLoops(c *Ctx, g *load.G) {
 		}
 	}
 	r.Min("C13-g counter loops", 8, n)
+}
+
+// c13IO (C13-b): the grammar is read from the named file exactly when a name was given (stdin otherwise) and the parser
+// is written to the named file exactly when -o was given (stdout otherwise).
+func c13IO(c *Ctx, g *load.G) {
+	r := c.R
+	for _, spec := range []struct{ fn, call string }{{"input", "os.Open"}, {"output", "os.Create"}} {
+		fd := load.FuncDecl(g.Pkg(""), "", spec.fn)
+		if fd == nil || fd.Body == nil {
+			r.Fatal("anchor main.%s not found", spec.fn)
+			continue
+		}
+		fp := firstParam(fd)
+		ok := false
+		detail := "no " + spec.call + "(" + fp + ") call"
+		for _, ce := range callsIn(fd.Body) {
+			if callName(ce) == spec.call && len(ce.Args) == 1 && nospace(ce.Args[0]) == fp {
+				gs := guardsOf(fd.Body, ce.Pos())
+				ok = len(gs) == 1 && gs[0] == fp+`!=""`
+				detail = spec.call + "(" + fp + ") happens under [" + strings.Join(gs, ";") + "], expected exactly " + fp + ` != ""` + ": the tool reads or writes the wrong stream, or fails on the default stream"
+			}
+		}
+		r.Check(ok, "C13-b", "G.main."+spec.fn+":file-iff-named", "", g.Where(fd.Pos()), spec.call+" exactly when a file name was given", detail)
+	}
 }
